@@ -67,7 +67,7 @@ def write_replay(pid, name, doc):
     json.dump(doc, open(path, "w"), indent=1, default=str)
     return path
 
-def run_property(pid, build, tier="quick", seed=0, budget_ms=None, thorough_extra=None):
+def run_property(pid, build, tier="quick", seed=0, budget_ms=None, thorough_extra=None, fallback=None):
     from pyvc import solve
     from pyvc.engine import Unsupported
     t0 = time.time()
@@ -84,6 +84,15 @@ def run_property(pid, build, tier="quick", seed=0, budget_ms=None, thorough_extr
         res = PropResult([], undecided=[("build", f"source outside the supported subset: {ex}")])
     except (SyntaxError, KeyError, FileNotFoundError) as ex:
         res = PropResult([], undecided=[("build", f"{type(ex).__name__}: {ex}\n{traceback.format_exc()[-1200:]}")])
+    if res.undecided and fallback is not None:
+        # part of the deductive side could not be built (e.g. the source keeps its state in another representation than the contracts talk about): the property is then
+        # at least searched for a violation on the real code - bounded, labelled as such; a violation found this way is reported with its input, nothing found leaves `undecided`
+        try:
+            have = {b.get("name") for b in res.bounded}
+            for b in fallback(REPO, tier, seed):
+                if b.get("name") not in have: b = dict(b, only_because_undecided=True); res.bounded.append(b)
+        except Exception as ex:
+            res.bounded.append({"name": "fallback search", "error": repr(ex)})
     obls = res.obligations
     if budget_ms is None: budget_ms = 12000 if tier == "quick" else 60000
     if obls and not getattr(res, "pre_discharged", False):
